@@ -11,7 +11,10 @@
    (variable r starts on instance r); the model carries the instance with the container exactly as the source does
    (swap exchanges it, copy/move construction take the source's).  Block [b] handed out by instance [a] is named
    [enc a b]; a release through instance [a'] names [reenc a' blk], which is a live block only if a' = a -- so
-   [wf_closed] requires every block to be released into the instance that handed it out. *)
+   [wf_closed] requires every block to be released into the instance that handed it out.
+   The instance a container designates is always a live handle: the harness's allocator handle is emptied by a
+   move, and any allocation/release through a moved-from handle is an oracle failure (the models have no notion of
+   a moved-from handle: als/sals/dals are plain instance ids, i.e. the source never uses one). *)
 From Coq Require Import List NArith Arith Bool.
 From FV Require Import Common.EventLog Seq.SlotModel Seq.VectorModel Seq.VectorProofs Seq.VectorLog
   Seq.StackModel Seq.ListModel Seq.DynArrayModel Seq.DynStackListProofs Seq.StackListLog Seq.DynArrayLog
